@@ -322,6 +322,59 @@ func c07HistoryPairs(r *run.Run) {
 // every simple lookup of the menus under every flag combination on all short sequences: the safety
 // clauses (no panic, termination, text conserved) do not need the reference shaper, so lookup types it
 // does not model (cursive attachment) are included
+// c07ContextProduct: the full product of contextual forms, patterns and lookup flags (the deviation-bounded
+// lists of C07.structures reach a form, a pattern and a flag set together only beyond their bound).
+func c07ContextProduct(r *run.Run) {
+	alphabet := []glyph.ID{gen.GA, gen.GB, gen.GM, gen.GN, gen.GL}
+	r.Explore(explore.Config{Name: "C07.context-product", Deadline: r.PartDeadline(0.2)},
+		fmt.Sprintf("all 6 contextual forms x %d patterns (with backtrack and lookahead) x %d lookup flag sets x GSUB / GPOS with one nested simple lookup, delivered through Encode/Read, asked for alone or together with lookup indices at and beyond the end of the list, on all glyph sequences of length <= 4 over {A,B,M,N,L} (texts that end in glyphs the lookup ignores): no panic, termination, every input character exactly once in the output", len(gen.Patterns), len(gen.Flags)),
+		func(c *explore.Ctx) {
+			gpos := c.Bool("gpos")
+			form := c.Choose(len(gen.ContextForms), "form")
+			pat := gen.Patterns[c.Choose(len(gen.Patterns), "pattern")]
+			f := gen.Flags[c.Choose(len(gen.Flags), "flags")]
+			menu, typ := gen.GsubSimple, uint16(5)
+			if gpos {
+				menu, typ = gen.GposSimple, 7
+			}
+			if form >= 3 {
+				typ++
+			}
+			gd, _ := gen.Gdef(0)
+			ll := gtab.LookupList{
+				gen.MakeLookup(typ, f, []gtab.Subtable{gen.Context(form, pat, []gtab.SeqLookup{{SequenceIndex: 0, LookupListIndex: 1}})}),
+				gen.MakeLookup(menu[0].Type, gen.Flags[0], menu[0].Sub()),
+			}
+			// the lookups the caller asks for: the context lookup alone, or with indices just beyond the list
+			applied := [][]gtab.LookupIndex{{0}, {0, 2}, {2, 0xFFFF, 0, 3}}[c.Choose(3, "lookups asked for")]
+			desc := fmt.Sprintf("%s %s %s, child %s, lookups asked for %v (the list has 2)", gen.ContextForms[form], pat.Name, f.Name, menu[0].Name, applied)
+			c.Sample(func() any { return desc })
+			if ll = deliver(ll, []gtab.LookupIndex{0}, gpos); ll == nil {
+				c.Tag("not deliverable by the reader: " + desc)
+				return
+			}
+			c.Nontrivial()
+			c.Outcome(desc)
+			gen.Sequences(alphabet, 4, func(g []glyph.ID) bool {
+				var out []glyph.Info
+				fin, pmsg := withWatchdog(20*time.Second, func() { out = gtab.NewContext(ll, gd, applied).Apply(seqWithText(g)) })
+				if !fin {
+					c.FailObserved("C07.terminates", "context product: "+gen.ContextForms[form], "Apply(%s) does not return within 20 s; %s", gen.SeqName(g), desc)
+					return false
+				}
+				if pmsg != "" {
+					c.Fail("C07.panic", "context product: "+explore.PanicSignature(pmsg), "Apply(%s) panics: %s; %s", gen.SeqName(g), pmsg, desc)
+					return false
+				}
+				if msg := textConserved(seqWithText(g), out); msg != "" {
+					c.Fail("C07.text", "context product: "+gen.ContextForms[form], "Apply(%s): %s; %s", gen.SeqName(g), msg, desc)
+					return false
+				}
+				return true
+			})
+		})
+}
+
 func c07Simple(r *run.Run) {
 	alphabet := []glyph.ID{gen.GA, gen.GB, gen.GM, gen.GN, gen.GL}
 	r.Explore(explore.Config{Name: "C07.simple", Deadline: r.PartDeadline(0.2)},
@@ -852,6 +905,7 @@ func init() {
 		}
 		// cheap parts first; the history search is by far the largest and takes what remains
 		c07Simple(r)
+		c07ContextProduct(r)
 		c07HistoryPairs(r)
 		c07LayouterHostile(r)
 		c07LayouterPairs(r)
